@@ -49,6 +49,8 @@ F.append(("rename-after-case-variant-name", case([{"RenameSheet": [0, "sheet1"]}
   "with a sheet renamed to a case variant of its old name (Sheet1 -> sheet1), a defined name spelled with the old case is retargeted to a different sheet when another sheet is renamed and the rename undone", []))
 F.append(("name-update-reparses-in-es-locale", case([{"NameNew": {"name":"nm1","scope":None,"formula":"Sheet1!$A$1"}}, inp(6,8,"=MAX(1,1)"), {"SetLocale": "es"}, inp(6,8,"0"), {"NameUpdate": {"name":"nm1","scope":None,"new_name":"nm2","new_scope":None,"formula":"Sheet1!$A$1"}}]),
   "renaming a defined name re-parses every stored formula with the active locale: after set_locale(es) the stored MAX(1,1) (restored by undo) has become MAX(1.1)", []))
+F.append(("rename-name-shadowing-another-scope", case([inp(4,4,"=alpha+1"), {"NameNew": {"name":"alpha","scope":None,"formula":"Sheet1!$A$1"}}, {"NameNew": {"name":"bravo","scope":0,"formula":"Sheet1!$B$2"}}, {"NameUpdate": {"name":"bravo","scope":0,"new_name":"alpha","new_scope":0,"formula":"Sheet1!$B$2"}}]),
+  "renaming a sheet-scoped name to the spelling of a global name and undoing it re-binds formulas by spelling: =alpha+1 (global alpha) becomes =bravo+1", []))
 register("C01", "histories", [(slug, c, what, avoid, slug == "input-implies-format") for slug, c, what, avoid in F])
 
 F2 = [
